@@ -116,4 +116,10 @@ theorem C17_filter_translated (e : FilterItem) (id : Nat) :
   cases p <;> cases g <;> cases s <;> cases d <;>
     simp [itemMatchesT, Consts.filterItemChecks, checkT, itemMatches, itemM2, itemM3, itemM4, bne, Bool.and_comm, obeq, nbeq]
 
+/-- the network applies the filter the caller installed: `with_filter` replaces the default filter, and `recv` delivers a
+frame exactly when that filter matches, after copying it and THEN setting its length to 8 (regenerated shapes; `netRecv`
+of the model) -/
+theorem C17_network_glue_as_modelled :
+    Consts.netWithFilterReplaces = true ∧ Consts.netRecvFiltersThenPadsTo8 = true := by decide
+
 end Glonax.Thm.C17
